@@ -164,7 +164,7 @@ def valid(case):
                 if k in b.handlers():
                     if kind not in HANDLER_KINDS:
                         return False
-                    if k in big and kind not in ("err500", "panic", "drop"):
+                    if k in big and kind not in ("err500", "panic", "drop", "okclose", "abort", "reset"):
                         return False   # only endings in which the server closes, with the body unread
                     if k in b.unread and kind not in ("err500", "panic", "drop"):
                         return False   # a buffered follower would be served after a client-side ending
